@@ -16,9 +16,9 @@ package main
 import (
 	"context"
 	"encoding/json"
+	"errors"
 	"fmt"
 	"os"
-	"runtime/coverage"
 	"sort"
 	"strings"
 	"time"
@@ -31,10 +31,10 @@ import (
 
 	v1 "sigs.k8s.io/karpenter/pkg/apis/v1"
 	"sigs.k8s.io/karpenter/pkg/cloudprovider"
+	"sigs.k8s.io/karpenter/pkg/controllers/provisioning"
 	psched "sigs.k8s.io/karpenter/pkg/controllers/provisioning/scheduling"
 	"sigs.k8s.io/karpenter/pkg/controllers/state"
 	"sigs.k8s.io/karpenter/pkg/scheduling"
-	"sigs.k8s.io/karpenter/pkg/utils/daemonset"
 	"sigs.k8s.io/karpenter/pkg/utils/resources"
 
 	"verifharness/kit"
@@ -359,13 +359,45 @@ type passOut struct {
 // runPass probes the scheduler's starting point, runs the real Provisioner.Schedule and emits the CPass case.
 func (m *mp) runPass(c *kit.Ctx, label string, markedIDs map[string]bool, world int) (*passOut, error) {
 	s, pods, nodes, err := m.probe()
+	if errors.Is(err, provisioning.ErrNodePoolsNotFound) { // every NodePool is out: the pass gives up, nothing is placed, nothing is opened
+		c.Count("pass.no-usable-nodepool")
+		res, err := m.prov.Schedule(m.ctx)
+		if err != nil {
+			return nil, fmt.Errorf("Schedule: %w", err)
+		}
+		if len(res.NewNodeClaims) != 0 {
+			c.Fail(c.NextID(), "a pass without a usable NodePool opened NodeClaims", "", map[string]interface{}{"kind": "no-nodepool", "world": world})
+		}
+		return &passOut{Errors: map[string]string{}}, nil
+	}
+	if err != nil && m.deadlinePool != "" && errors.Is(err, context.DeadlineExceeded) { // the provider timed out: the pass fails as a whole
+		c.Count("pass.provider-deadline-exceeded")
+		res, serr := m.prov.Schedule(m.ctx)
+		if serr == nil || len(res.NewNodeClaims) != 0 {
+			c.Fail(c.NextID(), "a pass whose instance-type lookup timed out returned placements", "", map[string]interface{}{"kind": "provider-deadline", "world": world})
+		}
+		// the provider recovers
+		delete(m.cp.ErrorsForNodePool, m.deadlinePool)
+		delete(m.poolOut, m.deadlinePool)
+		m.deadlinePool = ""
+		return &passOut{Errors: map[string]string{}}, nil
+	}
 	if err != nil {
 		return nil, err
 	}
-	if s == nil {
+	if s == nil { // nothing to schedule: the real pass must return at once with nothing
 		c.Count("pass.empty-batch")
-		return &passOut{}, nil
+		res, err := m.prov.Schedule(m.ctx)
+		if err != nil {
+			return nil, fmt.Errorf("Schedule: %w", err)
+		}
+		if len(res.NewNodeClaims) != 0 || len(res.ExistingNodes) != 0 {
+			c.Fail(c.NextID(), "a pass without pods produced placements", "", map[string]interface{}{"kind": "empty-batch", "world": world})
+		}
+		m.checkBatch(c, nil, label, world)
+		return &passOut{Errors: map[string]string{}}, nil
 	}
+	m.checkBatch(c, pods, label, world)
 	out := &passOut{Errors: map[string]string{}}
 	_ = nodes
 	// the state nodes handed to the model come from the API, not from the cluster state the scheduler used
@@ -386,13 +418,14 @@ func (m *mp) runPass(c *kit.Ctx, label string, markedIDs map[string]bool, world 
 	}
 	var qpods []qpodDump
 	for _, p := range pods {
+		if m.podKind[p.Namespace+"/"+p.Name] == kindDRA { // never placed while DRA requests are ignored (checkDRA); not handed to the model
+			continue
+		}
 		qpods = append(qpods, qpodDump{Pod: dumpPodK(p), TS: p.CreationTimestamp.Unix(), UID: string(p.UID)})
 	}
 	sort.Slice(qpods, func(i, j int) bool { return qpods[i].Pod.Key < qpods[j].Pod.Key })
-	var daemons []sk.PodDump
-	for _, ds := range m.w.DaemonSets {
-		daemons = append(daemons, dumpPodK(daemonset.PodForDaemonSet(ds)))
-	}
+	daemons := m.daemonPods(true)
+	m.livePrepped = m.livePrepped || len(tmpls) > 0
 	var cat []sk.ITDump
 	for _, it := range m.w.Catalog {
 		cat = append(cat, sk.DumpIT(it))
@@ -423,6 +456,8 @@ func (m *mp) runPass(c *kit.Ctx, label string, markedIDs map[string]bool, world 
 		out.Errors[p.Namespace+"/"+p.Name] = e.Error()
 	}
 	m.witnessNewClaims(c, res, label, world)
+	m.checkPools(c, tmpls, &res, label, world)
+	m.checkDRA(c, res, label, world)
 	// distribution
 	c.Count("pass." + label)
 	for _, o := range out.Obs {
@@ -634,10 +669,7 @@ func (m *mp) rerunClaim(c *kit.Ctx, claim string, podKeys []string, stage string
 		}
 	}
 	d := *sn
-	var daemons []sk.PodDump
-	for _, ds := range m.w.DaemonSets {
-		daemons = append(daemons, dumpPodK(daemonset.PodForDaemonSet(ds)))
-	}
+	daemons := m.daemonPods(false)
 	li := m.cp.launched[claim]
 	c.Count("rerun." + stage + fmt.Sprintf(".ok=%v", realOK))
 	term := fmt.Sprintf("(CRerun %s %s %s %s %s %s %s %s)", kit.GBool(all), kit.GBool(prefs.ToleratePreferNoSchedule), kit.GBool(len(s.VerifC04Templates()) > 0), gEphem(), kit.GListOf(daemons, gPod), gSN(d), kit.GListOf(pods, gPod), kit.GBool(realOK))
@@ -695,6 +727,17 @@ func (m *mp) claimNames() []string {
 	return out
 }
 
+// claimNamesCreated lists the NodeClaims of the API that the provisioner created (generateName).
+func (m *mp) claimNamesCreated() []string {
+	var out []string
+	for _, n := range m.claimNames() {
+		if !strings.HasPrefix(n, "nc-") {
+			out = append(out, n)
+		}
+	}
+	return out
+}
+
 // decisionStamp is the latest scheduling-decision time over the given pods: it moves iff GetPendingPods / Schedule ran.
 func (m *mp) decisionStamp(keys []types.NamespacedName) time.Time {
 	var t time.Time
@@ -711,7 +754,7 @@ func (m *mp) decisionStamp(keys []types.NamespacedName) time.Time {
 func (m *mp) reconcileProvisioner(keys []types.NamespacedName) (ran bool, created []string) {
 	before := m.claimNames()
 	m.clk.Step(3 * time.Second)
-	calls := m.cp.ITCalls
+	calls := m.pendingLists
 	m.prov.Trigger(types.UID("trigger"))
 	done := make(chan struct{})
 	go func() {
@@ -725,7 +768,7 @@ func (m *mp) reconcileProvisioner(keys []types.NamespacedName) (ran bool, create
 		case <-done:
 			after := m.claimNames()
 			created, _ = lo.Difference(after, before)
-			return m.cp.ITCalls != calls, created
+			return m.pendingLists != calls, created
 		default:
 			// the batcher first waits (1 s timer) for the trigger, which is already armed; only the two timers of the
 			// batching window (max, idle) may be fired, otherwise the select could see the 1 s timer and the trigger at once
@@ -886,6 +929,41 @@ func runWorld(c *kit.Ctx, r *kit.Rand, idx int) {
 		}
 	}
 	sk.BindDaemonPods(r, w)
+	if r.Chance(1, 15) {
+		w.Pods = nil
+		c.Count("world.without-pending-pods")
+	}
+	// pods with identical requests and different creation times (the queue's third sort key)
+	for i := 1; i < len(w.Pods); i++ {
+		if r.Chance(1, 4) {
+			w.Pods[i].Spec.Containers[0].Resources.Requests = w.Pods[i-1].Spec.Containers[0].Resources.Requests.DeepCopy()
+			w.Pods[i].Spec.InitContainers, w.Pods[i-1].Spec.InitContainers = nil, nil
+			w.Pods[i].CreationTimestamp = metav1.NewTime(time.Unix(1_600_000_100+int64(r.Intn(3)), 0))
+			w.Pods[i-1].CreationTimestamp = metav1.NewTime(time.Unix(1_600_000_101+int64(r.Intn(3)), 0))
+			c.Count("pods.same-requests-different-creation-time")
+		}
+	}
+	for _, n := range w.Nodes {
+		if n.Node == nil {
+			continue
+		}
+		// daemon pods the scheduler does not expect on the node (the daemonset does not match it, or is gone)
+		for _, ds := range w.DaemonSets {
+			if !n.DSBound[ds.Name] && r.Chance(1, 4) {
+				n.DSBound[ds.Name] = true
+				c.Count("daemon-pod.bound-regardless-of-selector")
+			}
+		}
+		if n.Kind != "deleting" && r.Chance(1, 5) {
+			orphan := dsPod("ds-gone", corev1.PodSpec{Containers: []corev1.Container{{Name: "d", Image: "pause", Resources: corev1.ResourceRequirements{Requests: sk.RLOf(100, 32, -1)}}}}, n.Node.Name, ownerGoneDSUID)
+			n.Bound = append(n.Bound, orphan)
+			c.Count("daemon-pod.of-a-deleted-daemonset")
+		}
+		if n.Kind == "unmanaged" && r.Chance(1, 3) { // a node without spec.providerID: cluster state keys it by name
+			n.Node.Spec.ProviderID = ""
+			c.Count("unmanaged-node.without-provider-id")
+		}
+	}
 	cfg := sk.RunCfg{Workers: []int{1, 4}[idx%2], IgnorePreferences: idx%3 == 1, BestEffortMinValues: (idx/2)%2 == 1}
 	m, err := newMP(r, w, cfg)
 	if err != nil {
@@ -893,6 +971,17 @@ func runWorld(c *kit.Ctx, r *kit.Rand, idx int) {
 		return
 	}
 	marked := m.marked
+	for k := range pendingFix {
+		delete(pendingFix, k)
+	}
+	m.oddPods(c)
+	m.oddBoundPods(c)
+	if r.Chance(1, 8) {
+		m.poolOutage(c)
+	}
+	if r.Chance(1, 5) {
+		m.failCreate = r.Range(1, 2)
+	}
 	jobs := m.startJobs(c)
 	fillSeq := 0
 	jobEvent := func() { // before a pass: maybe one of the bound pods finishes / starts terminating
@@ -944,22 +1033,48 @@ func runWorld(c *kit.Ctx, r *kit.Rand, idx int) {
 		return
 	}
 	c.Count(fmt.Sprintf("world.new-claims=%d", min(len(p0.Results.NewNodeClaims), 4)))
-	createdNames, err := m.prov.CreateNodeClaims(m.ctx, p0.Results.NewNodeClaims)
-	if err != nil {
+	if m.failCreate == 0 && r.Chance(1, 10) { // the NodePool of the first NodeClaim is deleted between Schedule and Create
+		np := &v1.NodePool{}
+		if err := m.cl.Get(m.ctx, client.ObjectKey{Name: p0.Results.NewNodeClaims[0].NodePoolName}, np); err == nil && len(np.Finalizers) == 0 {
+			if err := m.cl.Delete(m.ctx, np); err == nil {
+				m.failCreate = -1
+				m.poolOut[np.Name] = "deleted"
+				c.Count("fault.nodepool-deleted-before-create")
+			}
+		}
+	}
+	allNames, err := m.prov.CreateNodeClaims(m.ctx, p0.Results.NewNodeClaims)
+	if err != nil && m.failCreate == 0 {
 		c.Fail(c.NextID(), "CreateNodeClaims failed: "+err.Error(), "", nil)
 		return
 	}
 	claimPods := map[string][]string{}
+	var createdNames []string
 	for i, nc := range p0.Results.NewNodeClaims {
-		for _, p := range nc.Pods {
-			claimPods[createdNames[i]] = append(claimPods[createdNames[i]], p.Namespace+"/"+p.Name)
+		if allNames[i] == "" { // the injected API error: this NodeClaim does not exist, its pods have no capacity coming
+			c.Count("fault.nodeclaim-create-failed")
+			continue
 		}
+		createdNames = append(createdNames, allNames[i])
+		for _, p := range nc.Pods {
+			claimPods[allNames[i]] = append(claimPods[allNames[i]], p.Namespace+"/"+p.Name)
+		}
+	}
+	if got := m.claimNamesCreated(); len(got) != len(createdNames) {
+		c.Fail(c.NextID(), fmt.Sprintf("CreateNodeClaims reported %v but the API holds %v", createdNames, got), "", nil)
+	}
+	if len(createdNames) == 0 {
+		emitSync(c, segs, idx)
+		return
 	}
 	var ops, gops []string
 	for _, n := range sortedClaimNames(createdNames) {
 		ops, gops = append(ops, "create "+n), append(gops, "CCreate "+gs(n))
 	}
 	observe(ops, gops)
+	if r.Chance(1, 2) {
+		m.restartSynced(c, idx)
+	}
 	// a triggered Provisioner.Reconcile while NodeClaims are unlaunched
 	ran, made := m.reconcileProvisioner(podKeys)
 	if ran {
@@ -998,17 +1113,69 @@ func runWorld(c *kit.Ctx, r *kit.Rand, idx int) {
 			c.Count(fmt.Sprintf("sync.reconcile-while-partly-launched.ran=%v", ran))
 		}
 	}
-	// one in-flight claim may be deleted by somebody (expiration, user): it stops being capacity
+	// every NodeClaim is launched: a reconcile nobody triggered returns without a pass
+	if ranIdle := m.reconcileIdle(); ranIdle {
+		passes++
+	}
+	observe([]string{"reconcile (not triggered)"}, []string{"CReconcileIdle"})
+	if r.Chance(1, 2) {
+		m.restartSynced(c, idx)
+	}
 	live := lo.Filter(order, func(n string, _ int) bool { return stage[n] >= 1 })
-	if len(live) > 0 && r.Chance(1, 5) {
-		n := kit.Pick(r, live)
-		nc := &v1.NodeClaim{}
-		if err := m.cl.Get(m.ctx, client.ObjectKey{Name: n}, nc); err == nil {
-			_ = m.cl.Delete(m.ctx, nc) // the termination finalizer keeps the object, deletionTimestamp is set
-			m.syncClaim(n)
-			m.deleted[n] = true
-			c.Count("world.claim-deleted-while-in-flight")
+	// one in-flight claim may be deleted by somebody (expiration, user) at some point: it stops being capacity
+	deleteAt, lateNodeAt, outageAt := -1, -1, -1
+	if r.Chance(1, 3) {
+		deleteAt = r.Intn(4)
+	}
+	if r.Chance(1, 4) {
+		lateNodeAt = r.Intn(5)
+	}
+	if r.Chance(1, 4) {
+		outageAt = r.Intn(5)
+	}
+	removeSomething := func() {
+		cands := lo.Filter(live, func(n string, _ int) bool { return !m.deleted[n] })
+		if len(cands) == 0 {
+			return
 		}
+		n := kit.Pick(r, cands)
+		nc := &v1.NodeClaim{}
+		if err := m.cl.Get(m.ctx, client.ObjectKey{Name: n}, nc); err != nil {
+			return
+		}
+		how := kit.Pick(r, []string{"nodeclaim-deleting", "nodeclaim-gone", "node-gone"})
+		if how == "node-gone" && stage[n] < 2 {
+			how = "nodeclaim-gone"
+		}
+		switch how {
+		case "nodeclaim-deleting": // the termination finalizer keeps the object, deletionTimestamp is set
+			_ = m.cl.Delete(m.ctx, nc)
+			m.syncClaim(n)
+			if stage[n] < 2 && r.Bool() { // the lifecycle controller finalizes: instance deleted, InstanceTerminating=True
+				if out := m.reconcileClaim(n); out != nil && out.StatusConditions().Get(v1.ConditionTypeInstanceTerminating).IsTrue() {
+					c.Count("world.nodeclaim-instance-terminating")
+				}
+			}
+		case "nodeclaim-gone": // deleted and finalized: the object disappears (a Node, if any, stays behind for a while)
+			_ = m.cl.Delete(m.ctx, nc)
+			if err := m.cl.Get(m.ctx, client.ObjectKey{Name: n}, nc); err == nil {
+				nc.Finalizers = nil
+				if err := m.cl.Update(m.ctx, nc); err != nil {
+					panic(err)
+				}
+			}
+			m.syncClaim(n)
+		case "node-gone": // the Node object is removed (instance died), the NodeClaim is still there
+			node := &corev1.Node{}
+			if err := m.cl.Get(m.ctx, client.ObjectKey{Name: "node-" + n}, node); err == nil {
+				node.Finalizers = nil
+				_ = m.cl.Update(m.ctx, node)
+				_ = m.cl.Delete(m.ctx, node)
+				m.syncNode("node-" + n)
+			}
+		}
+		m.deleted[n] = true // no longer capacity "still starting" for its pods
+		c.Count(fmt.Sprintf("world.in-flight-capacity-removed.%s.stage=%d", how, stage[n]))
 	}
 	extraAt := -1
 	if r.Chance(1, 2) {
@@ -1032,6 +1199,21 @@ func runWorld(c *kit.Ctx, r *kit.Rand, idx int) {
 					m.advance(c, n, stage)
 				}
 			}
+		}
+		if round == deleteAt {
+			removeSomething()
+		}
+		if round == lateNodeAt {
+			m.lateUnmanagedNode(c, idx)
+		}
+		if round == lateNodeAt+1 || (lateNodeAt < 0 && round == 2 && r.Chance(1, 3)) {
+			m.unmanagedNodeChanges(c)
+		}
+		if round == 3 && r.Chance(1, 4) {
+			m.faultyPass(c, idx)
+		}
+		if round == outageAt {
+			m.poolOutage(c)
 		}
 		if round == extraAt {
 			for i := 0; i < r.Range(1, 3); i++ {
@@ -1168,6 +1350,9 @@ func runWorld(c *kit.Ctx, r *kit.Rand, idx int) {
 		c.Count(fmt.Sprintf("sync.reconcile-when-synced.ran=%v", ran))
 	}
 	emitSync(c, segs, idx)
+	if r.Chance(1, 3) {
+		m.restartSynced(c, idx)
+	}
 }
 
 func stageName(s int) string {
@@ -1175,6 +1360,8 @@ func stageName(s int) string {
 }
 
 // advance moves one NodeClaim one step along its lifecycle with the real controllers.
+var pendingFix = map[string]string{}
+
 func (m *mp) advance(c *kit.Ctx, n string, stage map[string]int) {
 	nc := &v1.NodeClaim{}
 	if err := m.cl.Get(m.ctx, client.ObjectKey{Name: n}, nc); err != nil {
@@ -1182,12 +1369,22 @@ func (m *mp) advance(c *kit.Ctx, n string, stage map[string]int) {
 	}
 	switch stage[n] {
 	case 1:
-		node := m.nodeAppears(nc, m.r.Chance(2, 3))
+		variant := kit.Pick(m.r, []string{"complete", "complete", "complete", "no-provider-id", "no-instance-type"})
+		node := m.nodeAppears(nc, m.r.Chance(2, 3), variant)
 		stage[n] = 2
+		c.Count("node-appears." + variant)
+		if variant != "complete" {
+			pendingFix[n] = variant
+		}
 		if m.r.Chance(1, 2) {
 			m.completedPodOnNewNode(c, node.Name)
 		}
 	case 2:
+		if _, ok := pendingFix[n]; ok { // the provider id / the instance-type label arrives
+			m.fixNode(nc)
+			delete(pendingFix, n)
+			return
+		}
 		out := m.reconcileClaim(n)
 		if out != nil && out.StatusConditions().Get(v1.ConditionTypeRegistered).IsTrue() {
 			stage[n] = 3
@@ -1220,9 +1417,11 @@ func main() {
 		"StateNodes.Active + sortExistingNodes = C04.Model.init_sched (order of the scheduler's existing nodes)",
 		"Provisioner.Schedule / Scheduler.Solve / trySchedule / add / Queue = C04.Model.pass (per pod: existing node, in-flight claim, new claim of which NodePool, or error)",
 		"ExistingNode.CanAdd/Add of a claim's pods on its own in-flight node = C01.Model.ex_can_add on C04.Model.state_node_view",
-		"Cluster.Synced + Provisioner.Reconcile guard = C04.Model.synced / cstep",
+		"Cluster.Synced + Provisioner.Reconcile guard (triggered / not triggered) = C04.Model.synced / cstep",
+		"Cluster.Synced of a restarted controller (first sync: list errors, untracked NodeClaims / Nodes, unlaunched NodeClaims) = C04.Model.synced_first",
+		"batch of a pass (GetPendingPods + reschedulable pods of deleting nodes) vs the kinds of pods the harness created; templates vs usable NodePools; DRA pods never placed",
 	}
-	n := 45
+	n := 40
 	if c.Thorough() {
 		n = 400
 	}
@@ -1234,19 +1433,12 @@ func main() {
 		"seconds": time.Since(t0).Seconds(),
 		"assumptions": []string{
 			"pods carry no preferences and no inter-pod constraints (the property's restriction); volumes, DRA, reserved offerings and NodePool limits are not generated",
-			"the harness plays the informers, the kubelet (node object, taints, readiness, reported resources) and the API server's generateName",
+			"pods that are not provisionable / rejected by Validate / not reschedulable are judged by the harness from how it built them; NodePool outages (not ready, deleting, static, provider errors) likewise",
+			"the harness plays the informers (nodeclaim, node, pod, daemonset; requeues included), the kubelet (node object, taints, readiness, reported resources) and the API server's generateName",
 			"the real CanAdd / Add of the in-flight ExistingNode is the feasibility witness of the joint re-admission oracle",
 			"goroutine interleavings inside parallelizeUntil are exercised (1 / 4 workers) but not modelled",
 		}}
 	c.Finish("From KV Require Import C04.Model C04.Check.\n"+internHeader(), "case", "check_all", 60)
-	if d := os.Getenv("C04_COVDIR"); d != "" { // coverage audit builds (-cover): write the counters explicitly
-		if err := coverage.WriteMetaDir(d); err != nil {
-			fmt.Fprintln(os.Stderr, "coverage:", err)
-		}
-		if err := coverage.WriteCountersDir(d); err != nil {
-			fmt.Fprintln(os.Stderr, "coverage:", err)
-		}
-	}
 }
 
 var _ = context.Background
